@@ -34,6 +34,7 @@ package pogreb
 //@   ensures [C06] durable: err == nil ==> dlAllDurable(dl)
 //@   ensures inv: dlInv(dl) && dlSealedDurable(dl)
 //@   ensures [C15] usable: err != nil ==> isIOErr(err)
+//@   ensures mono: fDur[fidOf[dl.curSeg.file.File]] >= old(fDur[fidOf[dl.curSeg.file.File]])
 //@   modifies fDur[fidOf[dl.curSeg.file.File]]
 
 //@ func (dl *datalog) removeSegment(seg *segment) (err error) [C05,C06,C15]
